@@ -14,7 +14,7 @@ using namespace xalanc;
 
 namespace {
 
-struct OpOut { uint64_t allocs = 0; int status = 0; bool threw = false; std::string exc; uint64_t outHash = 0; size_t outLen = 0; bool errEmpty = false; bool ran = false; };
+struct OpOut { uint64_t allocs = 0; int status = 0; bool threw = false; std::string exc; uint64_t outHash = 0; size_t outLen = 0; bool errEmpty = false; bool ran = false; std::string out; };
 
 struct Scenario {
     const Json& plan;
@@ -75,7 +75,7 @@ struct Scenario {
                 else if (compiled) { SinkOStream os(sink); XSLTResultTarget rt(&os, mm); o.status = T->transform(din, cs, rt); }
                 else o.status = T->transform(din, sin, &sink, sinkCallback, sinkFlushCallback);
             }
-            o.outHash = fnvStr(sink.bytes); o.outLen = sink.bytes.size();
+            o.outHash = fnvStr(sink.bytes); o.outLen = sink.bytes.size(); o.out = sink.bytes;
         } else if (k == "destroy-ss") {
             if (!sheets.empty()) { size_t i = op.num("i") % sheets.size(); o.status = T->destroyStylesheet(sheets[i]); sheets.erase(sheets.begin() + i); }
         } else if (k == "destroy-src") {
@@ -91,6 +91,7 @@ struct Scenario {
 };
 
 SimMemoryManager* g_mm = nullptr;     // for the terminate handler in the child
+std::vector<std::string> g_dryOutputs; // fault-free output of every op (filled by the worker from the dry run, inherited by forked children)
 int g_resFd = -1;
 std::string g_phase;
 
@@ -131,6 +132,8 @@ void childMain(const Json& plan, int faultOp, uint64_t faultK, int resFd) {
             o.allocs = sc.mm.opAllocs;
             sc.mm.clearFault();
             Json j = Json::object(); j["allocs"] = (long long)o.allocs; j["status"] = o.status; j["threw"] = o.threw; j["exc"] = o.exc; j["out"] = hex64(o.outHash); j["len"] = (long long)o.outLen; j["errEmpty"] = o.errEmpty;
+            if (faultOp < 0) j["bytes"] = o.out;      // dry run: the worker keeps the outputs
+            else if ((int)i == faultOp && !o.threw && o.status == 0 && i < g_dryOutputs.size() && o.out != g_dryOutputs[i]) { std::string d; j["diffFeature"] = firstObsDiff(g_dryOutputs[i], o.out, &d); j["diffDetail"] = d; }
             jops.push(j);
         }
         out["ops"] = jops;
@@ -306,7 +309,7 @@ struct C19 : public Driver {
             else if (fo.num("status") != 0) { outcome["status"]++; if (fo.boolean("errEmpty")) viol("empty-error", "after-alloc-fail:" + opName, "non-zero status with empty error message"); }
             else {
                 outcome["absorbed"]++;
-                if (fo.str("out") != dop.str("out") && dop.num("status") == 0) viol("absorbed-wrong-output", r.str("refusedSite"), "call reported success after a refused allocation but its output differs from the fault-free output");
+                if (fo.str("out") != dop.str("out") && dop.num("status") == 0) viol("absorbed-wrong-output", fo.str("diffFeature", "unknown"), "call reported success after a refused allocation (at " + r.str("refusedStack") + ") but its output differs from the fault-free output: " + fo.str("diffDetail"));
             }
         } else outcome["in-destructor"]++;
         // recovery
@@ -320,12 +323,13 @@ struct C19 : public Driver {
         ChildRes dryc = runChild(plan, -1, 0);
         res.count("children");
         if (!dryc.haveRes) { Json none; classify(plan, none, -1, 0, dryc, res, outcome); tr.ev("dry-died"); for (auto& kv : outcome) res.count("outcome:" + kv.first, kv.second); return; }
-        const Json& dry = dryc.res;
+        Json dry = dryc.res;
+        g_dryOutputs.clear(); for (auto& o : dry["ops"].a) { g_dryOutputs.push_back(o.str("bytes")); Json slim = Json::object(); for (auto& kv : o.o) if (kv.first != "bytes") slim[kv.first] = kv.second; o = slim; }
         classify(plan, dry, -1, 0, dryc, res, outcome);
         std::vector<uint64_t> n; for (auto& o : dry.at("ops").a) n.push_back((uint64_t)o.num("allocs"));
         n.push_back((uint64_t)dry.num("dtorAllocs"));
         uint64_t total = 0; for (auto v : n) total += v;
-        tr.ev("dry " + dryc.res.dump());
+        tr.ev("dry " + dry.dump());
         res.count("allocs_in_scenario", (int64_t)total);
         for (size_t i = 0; i < dry.at("ops").a.size(); ++i) { const Json& o = dry.at("ops").a[i]; res.tag("op:" + plan.at("ops").a[i].str("op") + (o.num("status") ? ":fails" : ":ok")); }
         // which faults
